@@ -220,21 +220,40 @@ Proof.
   apply NoDup_nil.
 Qed.
 
+(* a finest cell lies in at most one of the eight sub-cubes *)
+Lemma oct_children_disjoint m v c1 c2 u :
+  In c1 (oct_children m v) -> In c2 (oct_children m v) -> cell_of m c1 u -> cell_of m c2 u -> c1 = c2.
+Proof.
+  intros Hx Hy Bx By. destruct u as [[bx by_] bz]. unfold oct_children in Hx, Hy.
+  apply in_map_iff in Hx as (k1 & <- & _). apply in_map_iff in Hy as (k2 & <- & _).
+  destruct v as [[vx vy] vz].
+  destruct (corner_off_cases k1) as (a1 & b1 & d1 & E1 & A1 & B1 & D1).
+  destruct (corner_off_cases k2) as (a2 & b2 & d2 & E2 & A2 & B2 & D2).
+  rewrite E1 in *. rewrite E2 in *. cbn [scalep addp] in *.
+  destruct Bx as (i & j & k & Hi & Hj & Hk & X1 & X2 & X3). destruct By as (i' & j' & k' & Hi' & Hj' & Hk' & Y1 & Y2 & Y3).
+  rewrite pow2_S in *. pose proof (pow2_pos m) as P.
+  assert (a1 = a2) by nia. assert (b1 = b2) by nia. assert (d1 = d2) by nia. now subst.
+Qed.
+
 Lemma oct_leaves_NoDup m : forall v, NoDup (oct_leaves m v).
 Proof.
   induction m as [|m IH]; intros v; [repeat constructor; intros []|].
   unfold oct_leaves. cbn [leaves]. fold (oct_leaves m). apply NoDup_flat_map.
   - apply oct_children_NoDup.
   - intros x _. apply IH.
-  - intros x y [[bx by_] bz] Hx Hy Bx By. unfold oct_children in Hx, Hy.
-    apply in_map_iff in Hx as (c1 & <- & _). apply in_map_iff in Hy as (c2 & <- & _).
-    apply oct_leaves_spec in Bx, By. destruct v as [[vx vy] vz].
-    destruct (corner_off_cases c1) as (a1 & b1 & d1 & E1 & A1 & B1 & D1).
-    destruct (corner_off_cases c2) as (a2 & b2 & d2 & E2 & A2 & B2 & D2).
-    rewrite E1 in *. rewrite E2 in *. cbn [scalep addp] in *.
-    destruct Bx as (i & j & k & Hi & Hj & Hk & X1 & X2 & X3). destruct By as (i' & j' & k' & Hi' & Hj' & Hk' & Y1 & Y2 & Y3).
-    rewrite pow2_S in *. pose proof (pow2_pos m) as P.
-    assert (a1 = a2) by nia. assert (b1 = b2) by nia. assert (d1 = d2) by nia. now subst.
+  - intros x y b Hx Hy Bx By. apply oct_leaves_spec in Bx, By. exact (oct_children_disjoint m v x y b Hx Hy Bx By).
+Qed.
+
+(* children_partition: the finest cells of a cube of level S m are those of its eight sub-cubes,
+   each in exactly one of them *)
+Theorem oct_children_partition m v u :
+  cell_of (S m) v u <-> exists c, In c (oct_children m v) /\ cell_of m c u /\
+                                  forall c', In c' (oct_children m v) -> cell_of m c' u -> c' = c.
+Proof.
+  rewrite <- oct_leaves_spec. unfold oct_leaves. cbn [leaves]. fold (oct_leaves m). rewrite in_flat_map. split.
+  - intros (c & Hc & Hu). apply oct_leaves_spec in Hu. exists c. split; [exact Hc|]. split; [exact Hu|].
+    intros c' Hc' Hu'. exact (oct_children_disjoint m v c' c u Hc' Hc Hu' Hu).
+  - intros (c & Hc & Hu & _). exists c. split; [exact Hc|]. now apply oct_leaves_spec.
 Qed.
 
 (* the row-major list of all finest cells of the cube (the order of a uniform cube walk) *)
@@ -351,21 +370,37 @@ Proof.
   apply NoDup_nil.
 Qed.
 
+Lemma quad_children_disjoint m v c1 c2 u :
+  In c1 (quad_children m v) -> In c2 (quad_children m v) -> cell_of2 m c1 u -> cell_of2 m c2 u -> c1 = c2.
+Proof.
+  intros Hx Hy Bx By. destruct u as [bx by_]. unfold quad_children in Hx, Hy.
+  apply in_map_iff in Hx as (k1 & <- & _). apply in_map_iff in Hy as (k2 & <- & _).
+  destruct v as [vx vy].
+  destruct (sq_corner_off_cases k1) as (a1 & b1 & E1 & A1 & B1).
+  destruct (sq_corner_off_cases k2) as (a2 & b2 & E2 & A2 & B2).
+  rewrite E1 in *. rewrite E2 in *. unfold cell_of2 in Bx, By. cbn [scalep2 addp2 fst snd] in *.
+  destruct Bx as (i & j & Hi & Hj & X1 & X2). destruct By as (i' & j' & Hi' & Hj' & Y1 & Y2).
+  rewrite pow2_S in *. pose proof (pow2_pos m) as P.
+  assert (a1 = a2) by nia. assert (b1 = b2) by nia. now subst.
+Qed.
+
 Lemma quad_leaves_NoDup m : forall v, NoDup (quad_leaves m v).
 Proof.
   induction m as [|m IH]; intros v; [repeat constructor; intros []|].
   unfold quad_leaves. cbn [leaves]. fold (quad_leaves m). apply NoDup_flat_map.
   - apply quad_children_NoDup.
   - intros x _. apply IH.
-  - intros x y [bx by_] Hx Hy Bx By. unfold quad_children in Hx, Hy.
-    apply in_map_iff in Hx as (c1 & <- & _). apply in_map_iff in Hy as (c2 & <- & _).
-    apply quad_leaves_spec in Bx, By. destruct v as [vx vy].
-    destruct (sq_corner_off_cases c1) as (a1 & b1 & E1 & A1 & B1).
-    destruct (sq_corner_off_cases c2) as (a2 & b2 & E2 & A2 & B2).
-    rewrite E1 in *. rewrite E2 in *. unfold cell_of2 in Bx, By. cbn [scalep2 addp2 fst snd] in *.
-    destruct Bx as (i & j & Hi & Hj & X1 & X2). destruct By as (i' & j' & Hi' & Hj' & Y1 & Y2).
-    rewrite pow2_S in *. pose proof (pow2_pos m) as P.
-    assert (a1 = a2) by nia. assert (b1 = b2) by nia. now subst.
+  - intros x y b Hx Hy Bx By. apply quad_leaves_spec in Bx, By. exact (quad_children_disjoint m v x y b Hx Hy Bx By).
+Qed.
+
+Theorem quad_children_partition m v u :
+  cell_of2 (S m) v u <-> exists c, In c (quad_children m v) /\ cell_of2 m c u /\
+                                   forall c', In c' (quad_children m v) -> cell_of2 m c' u -> c' = c.
+Proof.
+  rewrite <- quad_leaves_spec. unfold quad_leaves. cbn [leaves]. fold (quad_leaves m). rewrite in_flat_map. split.
+  - intros (c & Hc & Hu). apply quad_leaves_spec in Hu. exists c. split; [exact Hc|]. split; [exact Hu|].
+    intros c' Hc' Hu'. exact (quad_children_disjoint m v c' c u Hc' Hc Hu' Hu).
+  - intros (c & Hc & Hu & _). exists c. split; [exact Hc|]. now apply quad_leaves_spec.
 Qed.
 
 Definition cells2_row_major (m : nat) (v : pt2) : list pt2 :=
@@ -865,3 +900,23 @@ Section Sound2.
     fst (@quadtree_st ROps origin res fv2 m v s) = @quad_uniform ROps origin res fv2 m v.
   Proof. intros Hs. rewrite (proj1 (quadtree_cache_refines origin res fv2 m v s Hs)). apply quadtree_eq_uniform. Qed.
 End Sound2.
+
+(* ------------------------------------------------------------------ instances and constants *)
+Lemma sphere_lip3 c R : lip3 (fun p => dist3 p c - R).
+Proof.
+  intros p q. replace (dist3 p c - R - (dist3 q c - R)) with (dist3 p c - dist3 q c) by ring.
+  unfold dist3. eapply Rle_trans; [apply len3_lip|]. right.
+  unfold dist3, len3, NormR.sub3. cbn [wx wy wz]. f_equal. ring.
+Qed.
+Lemma circle_lip2 c R : lip2 (fun p => dist2 p c - R).
+Proof.
+  intros p q. replace (dist2 p c - R - (dist2 q c - R)) with (dist2 p c - dist2 q c) by ring.
+  unfold dist2. eapply Rle_trans; [apply len2_lip|]. right.
+  unfold dist2, len2, NormR.sub2. cbn [vx vy]. f_equal. ring.
+Qed.
+
+(* the classical constants: half diagonal / side of a cube and of a square *)
+From Interval Require Import Tactic.
+Lemma half_diagonal_constants :
+  0.8660254037 < sqrt 3 / 2 < 0.8660254038 /\ 0.7071067811 < sqrt 2 / 2 < 0.7071067812.
+Proof. split; split; interval. Qed.
